@@ -149,7 +149,11 @@ inline bool Futex::Awaitable::await_suspend(
   node->promise = &handle.promise();
   node->handle = handle;
   auto success = _futex->add_awaiter(node, _expected_value);
-  if (success && _on_suspend) {
+  if (!success) {
+    // Not suspended: nobody else knows the id, give the slot back
+    box.take_released(id);
+    box.finish_released(id);
+  } else if (_on_suspend) {
     _on_suspend({id});
   }
   return success;
